@@ -57,11 +57,15 @@ func (p *lockPeer) Import(_ context.Context, keys [][]byte, values []*protocol.K
 // keys written at the start, each in one place, with the right values.
 func membershipLockStress(seed int64, rounds int) (problem string, replay map[string]any, done, contended int) {
 	// a node records every state transition for its whole life: start over with a fresh node
-	// every 100k rounds so that memory stays bounded
-	for seg := 0; done < rounds; seg++ {
+	// every 20k rounds so that memory stays bounded. The run is bounded by its round count; the
+	// wall-clock cap (4 min) only keeps a heavily loaded machine or the race detector, under
+	// which a round costs many times more, from eating the check's whole budget - the evidence
+	// reports the rounds actually run.
+	t0 := time.Now()
+	for seg := 0; done < rounds && time.Since(t0) < 4*time.Minute; seg++ {
 		n := rounds - done
-		if n > 100000 {
-			n = 100000
+		if n > 20000 {
+			n = 20000
 		}
 		p, rp, d, c := lockStressSegment(seed+int64(seg)*7919, n)
 		done, contended = done+d, contended+c
